@@ -319,3 +319,22 @@ pub fn netstat<H: ToIpAddr>(host: H) -> Netstat {
         netstat::snapshot(net.fabric.kernel(id))
     })
 }
+
+/// Verification hook (area nettcp): per-host socket-table index sizes
+/// `(sockets, binding keys, binding fds, connections, dangling)`.
+/// Read-only. Panics if no `Net` is installed.
+#[cfg(turmoil_verif)]
+pub fn verif_tcp_counts(host: HostId) -> (usize, usize, usize, usize, usize) {
+    CURRENT.with(|c| {
+        let cell = c.borrow();
+        let net = cell.as_ref().expect("no Net installed");
+        net.fabric.kernel(host).verif_tcp_counts()
+    })
+}
+
+/// Verification hook (area nettcp): `Debug` dump of the installed
+/// `Net`, used only to hash states during exhaustive search.
+#[cfg(turmoil_verif)]
+pub fn verif_tcp_dump() -> String {
+    CURRENT.with(|c| format!("{:?}", c.borrow().as_ref().expect("no Net installed")))
+}
